@@ -147,7 +147,7 @@ Proof.
   intros H; injection H as <- <- <-. repeat split; eapply prep_opt_flat; eassumption.
 Qed.
 Lemma arr2_prep {A} m (p : parr A) : flat1 p -> arr2 (prep m p) = rmap (fun v => repeat v m) (arr1 p).
-Proof. destruct p; simpl; tauto. Qed.
+Proof. destruct p; simpl; intros H; [reflexivity|reflexivity|contradiction]. Qed.
 
 (* ---------------------------------------------------------------- batch = map of singles *)
 (* X is a non-empty rectangular batch with rows of length d *)
@@ -166,33 +166,33 @@ Lemma ind_to_poi_shape I a b n kd d : rect d I ->
   (exists S, ind_to_poi K cosf pi I a b n kd = Ok (map S I) /\
              forall i, length i = d -> ind_to_poi1 K cosf pi i a b n kd = Ok (S i)).
 Proof.
-  intros [Hne Hr]. unfold ind_to_poi, ind_to_poi1. rewrite (hd_length I d Hne Hr).
-  rewrite prep_opts_reps.
+  intros [Hne Hr].
+  pose (G := fun i : list Z =>
+    rbind (grid_prep_opts a b n (Some (Z.of_nat d)) None) (fun '(a', b', n') =>
+    match kd with
+    | KUni | KCheb =>
+      rbind (arr1 n') (fun nv => rbind (arr1 b') (fun bv => rbind (arr1 a') (fun av =>
+      Ok (tab d (fun k => node K cosf pi kd (nth k av (o0 K)) (nth k bv (o0 K)) (nth k nv 0%Z) (nth k i 0%Z))))))
+    | _ => Err ValueError
+    end)).
+  assert (HG : forall i, length i = d -> ind_to_poi1 K cosf pi i a b n kd = G i) by (intros i <-; reflexivity).
+  cut ((exists e, ind_to_poi K cosf pi I a b n kd = Err e /\ forall i, G i = Err e) \/
+       (exists S, ind_to_poi K cosf pi I a b n kd = Ok (map S I) /\ forall i, G i = Ok (S i))).
+  { intros [(e & H1 & H2) | (S & H1 & H2)]; [left; exists e | right; exists S];
+      (split; [exact H1|]); intros i Hi; rewrite (HG i Hi); apply H2. }
+  clear HG. unfold G, ind_to_poi. rewrite (hd_length I d Hne Hr). rewrite prep_opts_reps.
   destruct (grid_prep_opts a b n (Some (Z.of_nat d)) None) as [[[a1 b1] n1]|e] eqn:E.
-  2:{ left. exists e. split; [reflexivity|]. intros i ->. now rewrite E. }
+  2:{ left. exists e. split; reflexivity. }
   destruct (prep_opts_flat _ _ _ _ _ _ _ E) as (Fa & Fb & Fn).
   cbn [rmap rbind].
-  assert (Bad : forall e0 : err, (forall X : list (list T), Err e0 = @Err (list (list T)) e0) -> True) by auto.
-  destruct kd as [| |an bn|];
-    try (left; exists ValueError; split; [reflexivity|]; intros i ->; rewrite E; reflexivity).
+  destruct kd as [| |an bn|]; try (left; exists ValueError; split; reflexivity).
   all: rewrite !arr2_prep by assumption.
-  all: destruct (arr1 n1) as [nv|e]; cbn [rmap rbind];
-    [|left; exists e; split; [reflexivity|]; intros i ->; rewrite E; reflexivity].
-  all: destruct (arr1 b1) as [bv|e]; cbn [rmap rbind];
-    [|left; exists e; split; [reflexivity|]; intros i ->; rewrite E; reflexivity].
-  all: destruct (arr1 a1) as [av|e]; cbn [rmap rbind];
-    [|left; exists e; split; [reflexivity|]; intros i ->; rewrite E; reflexivity].
-  all: right.
-  - exists (fun i => tab d (fun k => node K cosf pi KUni (nth k av (o0 K)) (nth k bv (o0 K)) (nth k nv 0%Z) (nth k i 0%Z))).
-    split.
-    + f_equal. rewrite <- (tab_map_nth _ I []). apply tab_ext. intros r Hlt.
-      apply tab_ext. intros k Hk. now rewrite !nth_repeat_lt.
-    + intros i ->. rewrite E. reflexivity.
-  - exists (fun i => tab d (fun k => node K cosf pi KCheb (nth k av (o0 K)) (nth k bv (o0 K)) (nth k nv 0%Z) (nth k i 0%Z))).
-    split.
-    + f_equal. rewrite <- (tab_map_nth _ I []). apply tab_ext. intros r Hlt.
-      apply tab_ext. intros k Hk. now rewrite !nth_repeat_lt.
-    + intros i ->. rewrite E. reflexivity.
+  all: destruct (arr1 n1) as [nv|e]; cbn [rmap rbind]; [|left; exists e; split; reflexivity].
+  all: destruct (arr1 b1) as [bv|e]; cbn [rmap rbind]; [|left; exists e; split; reflexivity].
+  all: destruct (arr1 a1) as [av|e]; cbn [rmap rbind]; [|left; exists e; split; reflexivity].
+  all: right; eexists; split; [|intros i; reflexivity].
+  all: f_equal; rewrite <- (tab_map_nth _ I []); apply tab_ext; intros r Hlt.
+  all: apply tab_ext; intros k Hk; now rewrite !nth_repeat_lt.
 Qed.
 
 Lemma batch_is_map_ind_to_poi I a b n kd d : rect d I ->
@@ -211,38 +211,31 @@ Lemma poi_scale_shape X a b kd d : rect d X ->
   (exists S, poi_scale K X a b kd = Ok (map S X) /\ (forall x, length (S x) = d) /\
              forall x, length x = d -> poi_scale1 K x a b kd = Ok (S x)).
 Proof.
-  intros [Hne Hr]. unfold poi_scale, poi_scale1. rewrite (hd_length X d Hne Hr).
-  rewrite prep_opts_reps.
+  intros [Hne Hr].
+  pose (G := fun x : list T =>
+    rbind (grid_prep_opts a b GNone (Some (Z.of_nat d)) None) (fun '(a', b', _) =>
+    match kd with
+    | KBad => Err ValueError
+    | _ => rbind (arr1 a') (fun av => rbind (arr1 b') (fun bv =>
+           Ok (tab d (fun k => scale K kd (nth k av (o0 K)) (nth k bv (o0 K)) (nth k x (o0 K))))))
+    end)).
+  assert (HG : forall x, length x = d -> poi_scale1 K x a b kd = G x) by (intros x <-; reflexivity).
+  cut ((exists e, poi_scale K X a b kd = Err e /\ forall x, G x = Err e) \/
+       (exists S, poi_scale K X a b kd = Ok (map S X) /\ (forall x, length (S x) = d) /\ forall x, G x = Ok (S x))).
+  { intros [(e & H1 & H2) | (S & H1 & H3 & H2)]; [left; exists e | right; exists S];
+      (split; [exact H1|]); [|split; [exact H3|]]; intros i Hi; rewrite (HG i Hi); apply H2. }
+  clear HG. unfold G, poi_scale. rewrite (hd_length X d Hne Hr). rewrite prep_opts_reps.
   destruct (grid_prep_opts a b GNone (Some (Z.of_nat d)) None) as [[[a1 b1] n1]|e] eqn:E.
-  2:{ left. exists e. split; [reflexivity|]. intros i ->. now rewrite E. }
+  2:{ left. exists e. split; reflexivity. }
   destruct (prep_opts_flat _ _ _ _ _ _ _ E) as (Fa & Fb & Fn).
   cbn [rmap rbind].
-  destruct kd as [| |an bn|];
-    try (left; exists ValueError; split; [reflexivity|]; intros i ->; rewrite E; reflexivity).
+  destruct kd as [| |an bn|]; try (left; exists ValueError; split; reflexivity).
   all: rewrite !arr2_prep by assumption.
-  all: destruct (arr1 a1) as [av|e]; cbn [rmap rbind];
-    [|left; exists e; split; [reflexivity|]; intros i ->; rewrite E; reflexivity].
-  all: destruct (arr1 b1) as [bv|e]; cbn [rmap rbind];
-    [|left; exists e; split; [reflexivity|]; intros i ->; rewrite E; reflexivity].
-  all: right.
-  - exists (fun x => tab d (fun k => scale K KUni (nth k av (o0 K)) (nth k bv (o0 K)) (nth k x (o0 K)))).
-    split; [|split].
-    + f_equal. rewrite <- (tab_map_nth _ X []). apply tab_ext. intros r Hlt.
-      apply tab_ext. intros k Hk. now rewrite !nth_repeat_lt.
-    + intros x. apply tab_length.
-    + intros i ->. rewrite E. reflexivity.
-  - exists (fun x => tab d (fun k => scale K KCheb (nth k av (o0 K)) (nth k bv (o0 K)) (nth k x (o0 K)))).
-    split; [|split].
-    + f_equal. rewrite <- (tab_map_nth _ X []). apply tab_ext. intros r Hlt.
-      apply tab_ext. intros k Hk. now rewrite !nth_repeat_lt.
-    + intros x. apply tab_length.
-    + intros i ->. rewrite E. reflexivity.
-  - exists (fun x => tab d (fun k => scale K (KLim an bn) (nth k av (o0 K)) (nth k bv (o0 K)) (nth k x (o0 K)))).
-    split; [|split].
-    + f_equal. rewrite <- (tab_map_nth _ X []). apply tab_ext. intros r Hlt.
-      apply tab_ext. intros k Hk. now rewrite !nth_repeat_lt.
-    + intros x. apply tab_length.
-    + intros i ->. rewrite E. reflexivity.
+  all: destruct (arr1 a1) as [av|e]; cbn [rmap rbind]; [|left; exists e; split; reflexivity].
+  all: destruct (arr1 b1) as [bv|e]; cbn [rmap rbind]; [|left; exists e; split; reflexivity].
+  all: right; eexists; split; [|split; [|intros x; reflexivity]]; [|intros x; apply tab_length].
+  all: f_equal; rewrite <- (tab_map_nth _ X []); apply tab_ext; intros r Hlt.
+  all: apply tab_ext; intros k Hk; now rewrite !nth_repeat_lt.
 Qed.
 
 Lemma batch_is_map_poi_scale X a b kd d : rect d X ->
@@ -284,7 +277,7 @@ Proof.
     all: rewrite arr2_prep by assumption.
     all: destruct (arr1 n1) as [nv|e]; cbn [rmap rbind]; [|now rewrite sequence_map_err].
     all: f_equal.
-    all: rewrite <- (map_length S X) at 1 2.
+    all: replace (length X) with (length (map S X)) by apply map_length.
     all: rewrite (tab2_rows (fun xs v => bcast_row K fl acosf pi _ xs v) (map S X) nv).
     all: now rewrite map_map.
 Qed.
